@@ -3,7 +3,7 @@ from props import _auto
 
 LEAN_MODULES = _auto.lean_modules("C07")
 VARIANTS = ['default']
-RULE = 'valid tuples and every tag bit flip, sampled bit flips of ct/aad/key/nonce, boundary moves, length swaps, truncation/extension, both interfaces; non-trivial = mutated case; distinct = distinct case lines'
+RULE = 'valid tuples and every tag bit flip, sampled bit flips of ct/aad/key/nonce, boundary moves, length swaps, truncation/extension, pad confusion; every mutated tuple through the one-shot function and the incremental interface, and through the one-shot OBJECT (aead.one) and the output-buffer-revealing call (aead.openbuf) (quick: the two take turns, thorough: both; every 8th tag bit); non-trivial = mutated case; distinct = distinct case lines'
 TRUSTED = ["hand-written Lean models (lean/CxVerif/Impl, Spec) tied to the code by the correspondence run and by tables re-extracted from /repo/src"]
 PROOF_SCOPE = "complete for the tag clause and the decision logic; the 'any modified input is rejected' clause is true only up to a Poly1305 collision (stated as a theorem, sampled)"
 ASSUMPTIONS = ["the clause 'any change of ciphertext, AAD, nonce or key is rejected' holds only up to a Poly1305 collision for the one-time key (inherent to the construction; stated as `modified_input_accepted_iff_collision`, sampled); the tag clause (all 128 bit flips) is proved"]
